@@ -56,7 +56,7 @@ func zzHeaderAccepted(e *zzEnv, da *zzDA, h uint64) (uint64, bool) {
 // pending tracker from the persisted watermark and a second call.
 func ZZ_C06_headers() {
 	zzsym.FreezeClock()
-	n := 1 + zzsym.Pick("n", 3)
+	n := 1 + zzsym.Pick("n", zzC06MaxPending)
 	e, m, da, W := zzSubmitSetup(n, false)
 	m.pendingHeaders.base.lastHeight.Store(W)
 	e.store.meta["last-submitted-header-height"] = zzLE(W)
@@ -196,7 +196,7 @@ func zzCheckDataSubmission(e *zzEnv, m *Manager, da *zzDA, W uint64, n int) {
 // scripted DA answers, then a restart of the tracker and an accepting DA.
 func ZZ_C06_data() {
 	zzsym.FreezeClock()
-	n := 1 + zzsym.Pick("n", 3)
+	n := 1 + zzsym.Pick("n", zzC06MaxPending)
 	e, m, da, W := zzSubmitSetup(n, true)
 	m.pendingData.base.lastHeight.Store(W)
 	e.store.meta["last-submitted-data-height"] = zzLE(W)
